@@ -117,6 +117,24 @@ def toyAEAD : AEAD where
 example : toyAEAD.Sized ∧ toyAEAD.Lawful :=
   ⟨by intro k n p ad; simp [toyAEAD], by intro k n p ad; simp [toyAEAD]⟩
 
+/-- an AEAD satisfying all three laws (`Open` checks the 16-byte zero tag) -/
+def tagAEAD : AEAD where
+  sealF _ _ p _ := p ++ zeros 16
+  openF _ _ c _ := if 16 ≤ c.length ∧ c.drop (c.length - 16) = zeros 16 then some (c.take (c.length - 16)) else none
+
+example : tagAEAD.Sized ∧ tagAEAD.Lawful ∧ tagAEAD.OpenSized := by
+  refine ⟨by intro k n p ad; simp [tagAEAD], ?_, ?_⟩
+  · intro k n p ad; simp [tagAEAD]
+  · intro k n c ad p h
+    simp only [tagAEAD] at h
+    split at h
+    · rename_i hc
+      injection h with h
+      subst h
+      simp only [List.length_take]
+      omega
+    · cases h
+
 set_option maxRecDepth 100000 in
 /-- … and `EncodePacket` panics with an index out of range on its 1024-byte buffer (the client
     process dies after seven consecutive lost responses); after the fix the same pool yields a
@@ -247,21 +265,22 @@ theorem C11_lossfree_full : (8 - 1) + (1 + min (8 - 8) 6) = 8 := by decide
     `r` and `ProcessResponse` under the S2C key and its identifier accepts it and recovers exactly
     those cookies; and every one of them decodes and opens under the *current* key, whose id it
     carries, to the same session `sc`.
-    (`124 ≤ |c0|`: the request's cookie is at least as long as the cookies this server issues —
-    true of every cookie it issued, see `C11_issued_cookie_length`.) -/
-theorem C11_server_reply_ok (A : AEAD) (hl : A.Lawful) (hs : A.Sized) (keys : Nat → Option Bytes) (curId : Nat) (curKey : Bytes)
+    (`OpenSized`: `Open` only accepts ciphertexts 16 bytes longer than the plaintext — with it
+    the request's cookie is proved to be at least the 124 bytes of an issued one, which is what makes
+    the size test in `ProcessRequest` sufficient.) -/
+theorem C11_server_reply_ok (A : AEAD) (hl : A.Lawful) (hs : A.Sized) (ho : A.OpenSized) (keys : Nat → Option Bytes) (curId : Nat) (curKey : Bytes)
     (b hdr rnd : Bytes) (d : Decoded) (c0 : Bytes) (ec sc : Triple) (key : Bytes) (cs : List Bytes)
     (hh : hdr.length = ntpPacketLen)
     (hd : decodePacket b = .ok d) (hc0 : firstCookie d = .ok c0) (hec : ecDecode c0 = .ok ec)
     (hkey : keys ec.num = some key) (hsc : decryptCookie A ec key = .ok sc)
     (hreq : processRequest A b sc.y d = .ok cs)
     (hx : sc.x.length = 32) (hy : sc.y.length = 32) (hnum : sc.num < 65536)
-    (hcur : keyOk curKey = true) (hc0len : 124 ≤ c0.length) :
+    (hcur : keyOk curKey = true) :
     ∃ r fresh, serverReply A keys curId curKey b hdr rnd = .ok r ∧ r.length ≤ maxPacketLen ∧ r.length % 4 = 0 ∧
       fresh.length = min (maxNumCookies d.uid.length 124) (cs.length + d.nph) ∧ 1 ≤ fresh.length ∧
       (d.uid.length % 4 = 0 → ∃ d', decodePacket r = .ok d' ∧ processResponse A r sc.x d' d.uid = .ok fresh) ∧
       ∀ f ∈ fresh, ∃ ec', ecDecode f = .ok ec' ∧ ec'.num = curId % 65536 ∧ decryptCookie A ec' curKey = .ok sc :=
-  serverReply_ok A hl hs keys curId curKey b hdr rnd d c0 ec sc key cs hh hd hc0 hec hkey hsc hreq hx hy hnum hcur hc0len
+  serverReply_ok A hl hs ho keys curId curKey b hdr rnd d c0 ec sc key cs hh hd hc0 hec hkey hsc hreq hx hy hnum hcur
 
 /-- a client request as the model's own client builds it (pool of two issued cookies) -/
 def sampleRequest : Res Bytes :=
